@@ -56,8 +56,13 @@ NewParser ==
      mode |-> "none", frag |-> "", phase |-> "idle", open |-> <<>>, items |-> <<>>, tbl |-> 0, errors |-> <<>>,
      quirks |-> FALSE, form |-> FALSE, aborted |-> FALSE, outside |-> FALSE, fired |-> {}]
 
+\* element names are ASCII case-insensitive: the container of parseFragment() is lower-cased, however it is passed
+\* (keyword or positional argument); the spellings the harness uses
+LowerName(n) == CASE n \in {"DIV", "Div"} -> "div"  [] n \in {"TABLE", "Table"} -> "table"  [] n \in {"PRE", "Pre"} -> "pre"
+                  [] n = "P" -> "p"  [] n \in {"TEXTAREA", "Textarea", "TextArea"} -> "textarea"  [] n \in {"SPAN", "Span"} -> "span"
+                  [] OTHER -> n
 \* HTMLParser._parse up to and including reset(): frag = "" for parse(), the container name for parseFragment()
-LcBegin(ps, frag, strict) ==
+LcBeginL(ps, frag, strict) ==
     LET keep == "table-text-survives-abort" \in KnownDefects
         p0 == [ps EXCEPT !.strict = strict, !.errors = <<>>, !.items = <<>>, !.tbl = 0, !.quirks = FALSE,
                          !.form = FALSE, !.aborted = FALSE,
@@ -68,6 +73,7 @@ LcBegin(ps, frag, strict) ==
        ELSE [p0 EXCEPT !.mode = "frag", !.frag = frag, !.open = <<"html">>,                  \* beforeHtml.insertHtmlElement()
                        !.phase = IF frag = "table" THEN "inTable" ELSE "inBody",   \* resetInsertionMode()
                        !.outside = frag \notin Containers]
+LcBegin(ps, frag, strict) == LcBeginL(ps, LowerName(frag), strict)
 
 Stop(ps) == ps.aborted \/ ps.outside
 ChildDepth(ps) == IF ps.mode = "doc" THEN Len(ps.open) ELSE Len(ps.open) - 1
@@ -314,4 +320,19 @@ CacheStep(cache, table, name) ==
          IN [cache |-> Evict(Append(cache, [name |-> name, func |-> f]), Cardinality(table)), func |-> f]
 CacheSound(cache, table) == \A i \in 1..Len(cache) : cache[i].func = Handler(table, cache[i].name)
 CacheBounded(cache, table) == 10 * Len(cache) <= 11 * Cardinality(table)
+\* --- _utils.moduleFactoryFactory: the process-wide cache behind getTreeBuilder / getTreeWalker ---
+\* A request names an implementation kind and passes options (for the etree builder: fullTree absent / TRUE / FALSE).
+\* The module built for a request is a function of the option VALUES (absent = the default, FALSE); the cache must be
+\* keyed by them.  KeyNamesOnly = TRUE is the alternative in which only the option NAMES enter the key (expressible so
+\* that TLC can show what the theorem excludes); html5lib as it is: FALSE.
+FullOf(req)    == IF req.full = "true" THEN TRUE ELSE FALSE                \* "absent" and "false" both mean the default
+FactoryKey(req, KeyNamesOnly) ==
+    IF KeyNamesOnly THEN [kind |-> req.kind, names |-> IF req.full = "absent" THEN "" ELSE "fullTree", val |-> ""]
+    ELSE [kind |-> req.kind, names |-> IF req.full = "absent" THEN "" ELSE "fullTree", val |-> req.full]
+\* returns [cache, full]: full = the variant of the module handed out
+FactoryStep(cache, req, KeyNamesOnly) ==
+    LET k == FactoryKey(req, KeyNamesOnly) IN
+    IF \E i \in 1..Len(cache) : cache[i].key = k
+    THEN [cache |-> cache, full |-> cache[CHOOSE i \in 1..Len(cache) : cache[i].key = k].full]
+    ELSE [cache |-> Append(cache, [key |-> k, full |-> FullOf(req)]), full |-> FullOf(req)]
 =============================================================================
